@@ -145,3 +145,14 @@ def query_points(ds, L=None):
     else:
         q[10] = X[1] + np.r_[np.zeros(d - 1), 3.0]
     return np.array(q)
+
+
+def scaled(ds, c):
+    """The same dataset with every coordinate multiplied by c (c = 64 gives integer-valued points)."""
+    s = DS()
+    s.__dict__.update(ds.__dict__)
+    s.name = '%sx%g' % (ds.name, c)
+    s.X = ds.X * c
+    s.yreg = ds.yreg.copy()
+    s.pairs, s.quads, s.quads_sat, s.trip = s.X[ds.pairs_idx], s.X[ds.quads_idx], s.X[ds.quads_sat_idx], s.X[ds.trip_idx]
+    return s
